@@ -39,6 +39,10 @@ def gen(ctx):
     r = ctx.rng
     thorough = ctx.tier == "thorough"
     scale = 4 if thorough else 1
+    # bulk random families: the quick tier keeps every class but fewer instances (the whole 20-check
+    # quick suite has to fit one session); the thorough tier runs the full size
+    def bulk(n_):
+        return n_ * 4 if thorough else max(1, (n_ * 2) // 5)
     C = Cases()
     bc = E.bclass
     BV = E.BOUNDARY
@@ -62,7 +66,7 @@ def gen(ctx):
         C.add("equ", [a, b], "equ:%s:%s" % (bc(a), bc(b)))
     for (a, b) in pairs[::3]:
         C.add("mul", [a, b], "mul:%s:%s" % (bc(a), bc(b)), cost=25)
-    for i in range(1500 * scale):
+    for i in range(bulk(1500)):
         a, b = (pat(), pat()) if i % 2 else (rnd(), rnd())
         cls = "limbpattern" if i % 2 else "random"
         C.add("add", [a, b], "add:" + cls)
@@ -114,7 +118,7 @@ def gen(ctx):
             for op in fam:
                 if op not in ("add", "sub"):
                     C.add("%s_%s" % (nm, op), [a], "%s_%s:%s" % (nm, op, mc(a)))
-        for i in range(2500 * scale):
+        for i in range(bulk(2500)):
             a, b = rnd() % mod, rnd() % mod
             if i % 3 == 0:
                 a = mod - 1 - r.below(4)
@@ -140,7 +144,7 @@ def gen(ctx):
                             "%s_mont_mul:limb:%s:%s" % (nm, mc(a), mc(b)), 60))
             for op in ("mont_sqr", "to_mont", "from_mont"):
                 C.l.append(("%s_%s %s" % (nm, op, h64(a)), "(h_%s_%s true %s)" % (nm, op, z(a)), "%s_%s:limb:%s" % (nm, op, mc(a)), 60))
-        for i in range(6000 * scale):
+        for i in range(bulk(6000)):
             a, b = rnd() % mod, rnd() % mod
             if i % 7 == 0:
                 a = mod - 1 - r.below(3)
@@ -319,9 +323,9 @@ def gen(ctx):
     single5 = [(d << (5 * i)) % R for i in (0, 1, 12, 25, 50, 51) for d in (1, 15, 16, 17, 31)]
     for k in scal:
         C.add("pmulgen", [k], "pmulgen:" + scls(k), cost=1300)
-    for k in single7:
+    for k in (single7 if thorough else single7[::2]):
         C.add("pmulgen", [k], "pmulgen:single-window", cost=600)
-    for i in range(70 * scale):
+    for i in range(bulk(70) if not thorough else 70 * scale):
         k = rnd() if i % 4 else pat()
         # n - 70-like neighbours of the only bad scalar, random low window
         if i % 10 == 0:
@@ -333,9 +337,9 @@ def gen(ctx):
         ks = scal if nm_ == "G" else scal[::3]
         for k in ks:
             C.add("pmul", [k] + list(t), "pmul:%s:%s:%s" % (nm_, kind, scls(k)), cost=2000)
-        for k in single5[:: (1 if nm_ == "G" else 4)]:
+        for k in single5[:: ((1 if thorough else 3) if nm_ == "G" else 4)]:
             C.add("pmul", [k] + list(t), "pmul:%s:single-window" % kind, cost=1200)
-    for i in range(40 * scale):
+    for i in range((16 if not thorough else 40 * scale)):
         pt = rpt()
         t = rep(pt, "scaled" if i % 2 else "norm")
         C.add("pmul", [rnd() if i % 3 else pat()] + list(t), "pmul:random:%s" % ("scaled" if i % 2 else "norm"), cost=2000)
@@ -344,7 +348,7 @@ def gen(ctx):
     C.add("pmul", [5] + [rnd() % P, rnd() % P, E.mont(1)], "pmul:offcurve", cost=1000)
     # [t]P + [s]G
     sums = [(0, 0), (0, 5), (5, 0), (1, 1), (N - 1, 1), (1, N - 1), (3, N - 70), (N, N), (M, M)]
-    for i in range(25 * scale):
+    for i in range((8 if not thorough else 25 * scale)):
         sums.append((rnd(), rnd()))
     dG = 1 + rnd() % (N - 1)
     Pd = E.mul(dG, G)
